@@ -100,7 +100,8 @@ def history(c, rec):
     for k, (nu, s_mat, q_exact) in enumerate(data):
         q = q_exact
         q_num = float(nu @ np.linalg.solve(s_mat, nu))
-        if abs(q_num - q) > 1e-6 * q + 1e-300:
+        # (sanity of the construction only; solve() itself is good to ~eps * cond(S), and cond(S) reaches 1e12 for the widest scale spreads)
+        if abs(q_num - q) > (1e-6 + 200 * np.finfo(float).eps * float(np.linalg.cond(s_mat))) * q + 1e-300:
             from vf.runner import HarnessError
 
             raise HarnessError(f"constructed NIS {q!r} but solve() gives {q_num!r}")
